@@ -116,3 +116,16 @@ Qed.
 Example ex_mixing_hyp :
   (S (length [[1; 2]; [0; 1]]%R) <= length [1; 2; 3]%R)%nat /\ gen_ortho_pre_0d 2 [1; 2; 3] (1/2) /\ nth 2 (vscale (1/2) [1; 2; 3]) 0 <> 0.
 Proof. unfold gen_ortho_pre_0d. simpl. repeat split; try lia; lra. Qed.
+
+Lemma gen_branches_orthonormal_nonzero j d g G1 G2 c c' :
+  (exists i, nth i d 0 <> 0) -> (S c < length d)%nat -> (S c' < length d)%nat ->
+  (gen_ortho_pre_0d j d g ->
+     dot (col c (gen_ortho_basis_0d j d g)) (col c' (gen_ortho_basis_0d j d g)) = if Nat.eqb c c' then 1 else 0) /\
+  (gen_ortho_pre_1d j d G1 ->
+     dot (col c (gen_ortho_basis_1d j d G1)) (col c' (gen_ortho_basis_1d j d G1)) = if Nat.eqb c c' then 1 else 0) /\
+  (gen_ortho_pre_2d j d G2 -> pos_def_2d G2 (length d) ->
+     dot (col c (gen_ortho_basis_2d j d G2)) (col c' (gen_ortho_basis_2d j d G2)) = if Nat.eqb c c' then 1 else 0).
+Proof.
+  intros Hd Hc Hc'. destruct (tie_branches j d g G1 G2) as (E0 & E1 & E2 & P0 & P1 & P2 & _).
+  rewrite E0, E1, E2, P0, P1, P2. exact (ortho_branches_orthonormal_nonzero j d g G1 G2 c c' Hd Hc Hc').
+Qed.
